@@ -41,7 +41,9 @@ def lattice(K, seed=0):
 
 DEFECTS = ["none", "scale1.01", "scale0.99", "sign", "entry1pct", "transpose", "missing-reduction", "opaque-at-order-2", "conj",
            "conj-cotangent", "drop-imag-cotangent",            # complex argument: the rule mistreats the incoming (co)tangent, not its own factor
-           "fwd-defect-inside-vjp-rule", "rev-defect-inside-jvp-rule"]   # only the mixed second-order combinations can see these
+           "fwd-defect-inside-vjp-rule", "rev-defect-inside-jvp-rule",   # only the mixed second-order combinations can see these
+           "nan-entry",                      # the rule is right except for a NaN (formula evaluated at a removable singularity)
+           "tangent-slot-defect"]            # the JVP routes its tangent through a helper whose derivative IN THE TANGENT is wrong (order 2, forward)
 KINDS = ["scalar", "array", "matrixfn", "complex", "container", "broadcast", "linearfn"]
 A = onp.array([[1.3, -0.4], [0.8, 2.1]])
 
@@ -84,6 +86,21 @@ def build(kind, defect):
         cj = (lambda v: np.conj(v)) if defect == "conj" else (lambda v: v)      # a misplaced conjugate on a holomorphic rule
         gq = {"conj-cotangent": np.conj, "drop-imag-cotangent": lambda g: np.real(g) + 0j}.get(defect, lambda g: g)
         d_vjp = d_jvp = d
+        if defect == "nan-entry":
+            def entry(v, g=None):       # noqa: F811 - replaces the single-wrong-entry operator
+                m = onp.zeros(onp.shape(getval(v)))
+                if m.shape:
+                    m.reshape(-1)[0] = 1.0
+                    return v + np.where(m > 0, onp.nan, 0.0)
+                return v + onp.nan
+        tangent_mul = None
+        if defect == "tangent-slot-defect":
+            @ext.primitive
+            def scale(a, b):
+                return a * b
+            ext.defvjp(scale, lambda ans, a, b: lambda g: g * b, lambda ans, a, b: lambda g: g * a)
+            ext.defjvp(scale, lambda g, ans, a, b: 1.5 * g * b, lambda g, ans, a, b: g * a)      # wrong in its first (tangent) slot only
+            tangent_mul = scale
         if defect in ("fwd-defect-inside-vjp-rule", "rev-defect-inside-jvp-rule"):
             # the derivative factor is computed by a helper primitive whose own rule is wrong in ONE mode only
             @ext.primitive
@@ -98,7 +115,10 @@ def build(kind, defect):
             else:
                 d_jvp = helper
         ext.defvjp(prim, lambda ans, x: lambda g: entry(s * gq(g) * cj(d_vjp(x)) + shift * g, g))
-        ext.defjvp(prim, lambda g, ans, x: entry(s * gq(g) * cj(d_jvp(x)) + shift * g, g))
+        if tangent_mul is not None:
+            ext.defjvp(prim, lambda g, ans, x: tangent_mul(g, d_jvp(x)))
+        else:
+            ext.defjvp(prim, lambda g, ans, x: entry(s * gq(g) * cj(d_jvp(x)) + shift * g, g))
         if kind == "scalar":
             return prim, 1.3
         if kind == "array":
@@ -157,8 +177,10 @@ def applicable(kind, defect):
         return kind in ("matrixfn", "linearfn")
     if defect in ("conj", "conj-cotangent", "drop-imag-cotangent"):
         return kind == "complex"
-    if defect in ("fwd-defect-inside-vjp-rule", "rev-defect-inside-jvp-rule"):
+    if defect in ("fwd-defect-inside-vjp-rule", "rev-defect-inside-jvp-rule", "tangent-slot-defect"):
         return kind == "scalar"
+    if defect == "nan-entry":
+        return kind in ("scalar", "array")
     if defect == "missing-reduction":
         return kind == "broadcast"
     if defect == "opaque-at-order-2":
@@ -233,8 +255,10 @@ def lattice_factory(quick, seed):
         order = ch.choose("order", [1, 2])
         if defect == "opaque-at-order-2" and order == 1:
             raise Skip("this defect is only visible at order 2")
+        if defect == "tangent-slot-defect" and (order == 1 or mode == "rev"):
+            raise Skip("visible only to second-order forward checks")
         mixed = defect in ("fwd-defect-inside-vjp-rule", "rev-defect-inside-jvp-rule")
-        both_ok = mode == "both" and order == 2 and kind == "scalar" and (mixed or defect == "sign" or (defect == "none" and not quick))
+        both_ok = mode == "both" and order == 2 and kind == "scalar" and (mixed or defect in ("sign", "tangent-slot-defect") or (defect == "none" and not quick))
         if (mode == "both" and not both_ok) or (mode != "both" and mixed):
             # both modes together: the default call check_grads(f)(x); walked for the scalar kind at order 2 (15 draws), where the
             # four second-order combinations rr, rf, fr, ff must all be examined
